@@ -199,6 +199,14 @@ Theorem C05w_enumerates : forall h : nat, (h <= 30)%nat ->
 Proof. exact IndexToPath_enumerates_stored. Qed.
 Print Assumptions C05w_enumerates.
 
+(** a session of calls on one height: every answer is the specification's word, independent of the
+    calls before it (the history ops of the correspondence run check the code against this) *)
+Theorem C05h_session : forall (h : nat) (l : list Z), (h <= 30)%nat ->
+  Forall (fun i => 0 <= i < 2 ^ (Z.of_nat h + 1) - 1) l ->
+  map (IndexToPath (Z.of_nat h)) l = map (fun i => Some (spec_index_to_path h i)) l.
+Proof. exact IndexToPath_session. Qed.
+Print Assumptions C05h_session.
+
 Example C05w_nonvacuous :
   IndexToPath 30 1234567 = Some 0x96b3a3fffffff /\ IndexToPath 30 1234568 = Some 0x96b3b3fffffff /\
   (0x96b3a3fffffff ?= 0x96b3b3fffffff) = (1234567 ?= 1234568) /\
